@@ -393,3 +393,35 @@ Proof.
   unfold recorded, setup_version. destruct (alookup (setup_var n) e) as [val|] eqn:A; [|discriminate].
   intro R. exists val. split; [now apply alookup_In|exact R].
 Qed.
+
+(* ------------------------------------------------------------ the environment the expansion reads *)
+
+(* a dependency whose setup fails - the product was found, its SETUP_ variable recorded (set_product_vars), and a
+   later line of its table could not be executed - leaves no trace when it is optional: the loop over the actions
+   goes on from the state it had before the dependency was started, whatever state the failed call returned *)
+Lemma failed_optional_rolled_back cfg rec depth just nm jst acts st ds st1 ds1 :
+  cut_off cfg just (S depth) = false ->
+  rec st ds nm true (S depth) jst = RDone false st1 ds1 \/ rec st ds nm true (S depth) jst = RRaise st1 ds1 ->
+  run_actions cfg rec true depth just (ASetup true nm jst :: acts) st ds
+  = run_actions cfg rec true depth just acts st ds1.
+Proof.
+  intros C R. cbn [run_actions]. rewrite C. destruct R as [-> | ->]; reflexivity.
+Qed.
+
+(* a required one makes the enclosing table fail with the state that table had reached before the dependency *)
+Lemma failed_required_raises cfg rec depth just nm jst acts st ds st1 ds1 :
+  cut_off cfg just (S depth) = false ->
+  rec st ds nm true (S depth) jst = RDone false st1 ds1 \/ rec st ds nm true (S depth) jst = RRaise st1 ds1 ->
+  run_actions cfg rec true depth just (ASetup false nm jst :: acts) st ds = RRaise st ds1.
+Proof.
+  intros C R. cbn [run_actions]. rewrite C. destruct R as [-> | ->]; reflexivity.
+Qed.
+
+(* no pin for a product that has no SETUP_ variable *)
+Lemma pins_need_a_record jf sf w e top plist force rd ls out o n v :
+  expand_gen jf sf w e top plist force rd ls = Ok out -> In (OPin o n v) out ->
+  alookup (setup_var n) e = None -> alookup n plist = Some v.
+Proof.
+  intros E I N. destruct (pins_sound jf sf w e top plist force rd ls out o n v E I) as [R|P]; [|exact P].
+  unfold recorded, setup_version in R. rewrite N in R. discriminate R.
+Qed.
